@@ -456,7 +456,8 @@ def gen_items(r, enc, ctx, depth, counter):
 def build_doc(recipe):
     e = E()
     NS = e["el"].NavigableString
-    soup = e["BeautifulSoup"]("<html><head><title>t</title>" + recipe["meta"]["markup"] + "</head><body></body></html>", "html.parser")
+    soup = e["BeautifulSoup"]("<html><head><title>t</title>" + recipe["meta"].get("spacer", "") + recipe["meta"]["markup"]
+                              + recipe["meta"].get("second", "") + "</head><body></body></html>", "html.parser")
 
     def add(parent, items):
         for it in items:
@@ -498,6 +499,12 @@ def apply_history(soup, history):
                 soup = copy.deepcopy(soup)
             elif op == "pickle":
                 soup = pickle.loads(pickle.dumps(soup))
+            elif op == "parse":
+                # another document goes through the same process in between: nothing of it may leak into this one
+                E()["BeautifulSoup"](step[1], "html.parser").encode(step[2] if len(step) > 2 else "utf-8")
+            elif op == "placeholder":
+                E()["el"].ContentMetaAttributeValue(step[1])
+                E()["el"].CharsetMetaAttributeValue(step[1])
         except Exception:
             pass   # a raising call is a violation where that call is itself the case; here only its after-effects matter
     return soup
@@ -1103,7 +1110,22 @@ def check_doc_str(ctx, batch, recipe, e_enc, stream, history=None):
 
 
 def gen_recipe(r, enc, ctx):
-    return {"meta": meta_markup(r), "items": gen_items(r, enc, ctx, 0, [0])}
+    meta = meta_markup(r)
+    if meta["style"] != "none" and r.random() < 0.25:
+        # a second <meta> after the declaring one, e.g. a content-type meta without any charset: created later, rendered later
+        meta = dict(meta, second=r.choice(SECOND_METAS))
+    return {"meta": meta, "items": gen_items(r, enc, ctx, 0, [0])}
+
+
+# documents parsed in between (state must not leak across documents): a content-type <meta> WITHOUT a charset, one with,
+# an HTML5 declaration, none at all
+OTHER_DOCS = ['<html><head><meta http-equiv="Content-Type" content="text/html"></head><body><p>x</p></body></html>',
+              '<meta content="text/html" http-equiv="content-type">',
+              '<html><head><meta http-equiv="Content-Type" content="text/html; charset=big5"></head><body>é</body></html>',
+              '<meta charset="shift_jis"><p>é</p>', '<p>no declaration</p>',
+              '<meta http-equiv="content-type" content="">']
+SECOND_METAS = ['<meta http-equiv="Content-Type" content="text/html">', '<meta content="application/xhtml+xml" http-equiv="content-type">',
+                '<meta name="viewport" content="width=device-width">', '<meta http-equiv="refresh" content="5">']
 
 
 def rand_history(r):
@@ -1116,14 +1138,30 @@ def rand_history(r):
             steps.append(["decode", r.choice([None, "big5", "idna", "utf-8"])])
         elif k < 0.7:
             steps.append(["str"])
-        else:
+        elif k < 0.8:
             steps.append([r.choice(["copy", "deepcopy", "pickle"])])
+        elif k < 0.95:
+            steps.append(["parse", r.choice(OTHER_DOCS), r.choice(["utf-8", "koi8-r", "ascii"])])
+        else:
+            steps.append(["placeholder", r.choice(["text/html", "", "text/html; charset=zz", "x"])])
     return steps
 
 
 def stream_history(ctx, batch):
     """the same object rendered several times (different targets, str in between), and copies / pickles of it"""
     r = ctx.rng("history")
+    # directed: a declaring document, then a document whose content-type <meta> has no charset, then render the first
+    for meta in NAME_METAS:
+        for other in OTHER_DOCS:
+            for enc in ("koi8-r", "shift_jis", "utf-8"):
+                recipe = {"meta": meta, "items": [{"name": "p", "id": "n1", "attrs": [["title", "é ☃", None]],
+                                                   "kids": [{"text": "я é ☃", "bait": None}]}]}
+                hist = [["parse", other, "utf-8"]]
+                check_doc(ctx, batch, recipe, enc, r.choice(ENTRIES[:3]), "history-interleaved", history=hist)
+                check_doc_str(ctx, batch, recipe, r.choice(["big5", "idna"]), "history-interleaved", history=hist)
+        for second in SECOND_METAS:
+            recipe = {"meta": dict(meta, second=second), "items": [{"name": "p", "id": "n1", "attrs": [], "kids": [{"text": "я é", "bait": None}]}]}
+            check_doc(ctx, batch, recipe, "koi8-r", r.choice(ENTRIES[:3]), "history-interleaved")
     for i in range(ctx.n(500, 3000)):
         enc = pick_encoding(r)
         if not facts(enc).ascii_ok:
@@ -1340,6 +1378,114 @@ def stream_codecs(ctx, batch):
     batch.flush()
 
 
+# --------------------------------------------------------------------------------------
+# stream: where in the OUTPUT the rewritten declaration lies — the documented search window of the re-parse
+# --------------------------------------------------------------------------------------
+def documented_window(out: bytes) -> int:
+    """the property statement (dammit's documentation): an HTML declaration is looked for in the first
+    max(2048, 5 % of the document) bytes — hard-coded here, not read from the code"""
+    return max(2048, int(len(out) * 0.05))
+
+
+def declaration_end(out: bytes, enc: str):
+    """offset just after the character that closes the declared value in the (ASCII-compatible) output"""
+    m = re.search(rb"<meta[^>]*?charset=[\"']?" + re.escape(enc.encode("ascii")) + rb"[\"']", out)
+    return m.end() if m else None
+
+
+WINDOW_TEXT = {"koi8-r": "Привет, мир", "cp1251": "Привет, мир", "866": "Привет, мир", "latin-1": "déjà vu façade", "iso-8859-7": "Καλημέρα κόσμε",
+               "shift_jis": "こんにちは世界", "big5": "你好世界", "euc-kr": "안녕하세요", "windows-1252": "“déjà vu” — façade", "iso-8859-2": "Zażółć gęślą jaźń"}
+
+
+def window_recipe(style, spacer_len, body_len, text):
+    spacer = '<meta name="description" content="' + "d" * max(spacer_len, 0) + '">'
+    if style == "charset":
+        meta = dict(markup='<meta charset="utf8">', style="charset", orig="utf8", spacer=spacer)
+    else:
+        meta = dict(markup='<meta http-equiv="Content-Type" content="text/html; charset=utf8">', style="content",
+                    orig="text/html; charset=utf8", spacer=spacer,
+                    parts=dict(mime="text/html", sep=";", before="", w0=" ", key="charset", w1="", w2="", old="utf8", after=""))
+    items = [{"name": "p", "id": "n1", "attrs": [["title", text, None]], "kids": [{"text": text, "bait": None}]}]
+    if body_len:
+        items.append({"name": "div", "id": "n2", "attrs": [], "kids": [{"text": "b" * body_len, "bait": None}]})
+    return {"meta": meta, "items": items}
+
+
+def stream_window(ctx, batch):
+    """sweep the end of the rewritten declaration across the documented window: inside it a re-parse must detect the target
+    and recover the text; positions outside are recorded (nothing is promised there)"""
+    r = ctx.rng("window")
+    BS = E()["BeautifulSoup"]
+    # (target offsets of the declaration's end, body filler): a small document (window 2048) and one of ~100 KB (window 5 %)
+    small = [900, 1023, 1024, 1025, 1030, 1100, 1500, 2000, 2040, 2047, 2048, 2049, 2060, 2500]
+    encs = list(WINDOW_TEXT)
+    plans = [(off, 0) for off in small] + [(off, 100_000) for off in (1500, 2049, 3000, 4000, 5000, 5100, 6000)]
+    if not ctx.thorough:
+        encs = r.sample(encs, 4) + ["koi8-r"]
+    for enc in encs:
+        f = facts(enc)
+        text = "".join(ch for ch in WINDOW_TEXT[enc] if f.lawful(ch) and f.can(ch))
+        for style in ("charset", "content"):
+            for entry in ENTRIES[:3]:
+                for off, body in plans:
+                    # place the declaration: render once, measure, move the spacer by the difference (each spacer character is one byte)
+                    s0 = max(off - 200, 0)
+                    out0 = call_entry(build_doc(window_recipe(style, s0, body, text)), entry, enc)
+                    e0 = declaration_end(out0, enc)
+                    if e0 is None:
+                        ctx.count("window:declaration-not-located")
+                        continue
+                    slen = s0 + (off - e0)
+                    if slen < 0:
+                        continue
+                    recipe = window_recipe(style, slen, body, text)
+                    case = {"op": "window", "recipe": recipe, "encoding": enc, "entry": entry, "target_offset": off}
+                    found = check_window(ctx, recipe, enc, entry, off, case, "window")
+    ctx.exhaustive_parts.append("re-detection window: the end of the rewritten declaration placed at byte 900…2500 of a small document and "
+                                "1500…6000 of a ~100 KB one (both sides of 1024, of 2048 and of 5 %), both styles x 3 entry points x "
+                                f"{len(encs)} ASCII-compatible non-UTF-8 targets")
+
+
+def check_window(ctx, recipe, enc, entry, off, case, stream):
+    BS = E()["BeautifulSoup"]
+    f = facts(enc)
+    found = []
+    out = call_entry(build_doc(recipe), entry, enc)
+    end = declaration_end(out, enc)
+    win = documented_window(out)
+    if end is None:
+        found.append("not located")
+        report(ctx, "the rewritten declaration is not in the output", case=case, stream=stream)
+        return found
+    inside = end <= win
+    where = ("<=1024" if end <= 1024 else "1024..2048" if end <= 2048 else "2048..5%" if inside else "outside")
+    ctx.count("window:" + where + (":big" if len(out) > 50_000 else ":small"))
+    auto = BS(out, "html.parser")
+    oe = auto.original_encoding
+    try:
+        oen = codecs.lookup(oe).name
+    except (LookupError, TypeError):
+        oen = None
+    p2 = auto.find(id="n1")
+    text = recipe["items"][0]["kids"][0]["text"]
+    got = None if p2 is None else (p2.get_text().strip() if entry == "prettify" else p2.get_text())
+    if inside:
+        if oen != f.norm:
+            found.append("detect")
+            report(ctx, f"the declaration ends at byte {end} of {len(out)}, inside the documented window ({win}), yet a re-parse of the "
+                        "output auto-detects a different encoding", case=case, expected=f.norm, observed=oe, stream=stream,
+                   kind="window-detect")
+        if got != text:
+            found.append("text")
+            report(ctx, f"the declaration ends at byte {end} of {len(out)}, inside the documented window ({win}), yet re-parsing the "
+                        "output does not recover the text", case=case, expected=ascii(text), observed=ascii(got), stream=stream,
+                   kind="window-text")
+    else:
+        ctx.count("window:outside:" + ("still-detected" if oen == f.norm else "not-detected"))
+    ctx.case(("window", enc, entry, recipe["meta"]["style"], off, len(out) > 50_000))
+    return found
+
+
 def stream_corpus(ctx, batch):
     from .common import CORPUS
     d = CORPUS / "C08"
@@ -1352,6 +1498,8 @@ def stream_corpus(ctx, batch):
             check_doc(ctx, batch, c["recipe"], c["encoding"], c["entry"], "corpus", history=c.get("history"))
         elif c.get("op") == "subst":
             check_subst(ctx, batch, c["content"], c["eventual_encoding"], v.get("expected"), "corpus")
+        elif c.get("op") == "window":
+            check_window(ctx, c["recipe"], c["encoding"], c["entry"], c.get("target_offset"), c, "corpus")
         ctx.count("corpus:cases")
     batch.flush()
 
@@ -1383,6 +1531,7 @@ def run(ctx: Ctx):
     stream_xcr(ctx, batch)
     stream_reader(ctx, batch)
     stream_misc(ctx, batch)
+    stream_window(ctx, batch)
     stream_history(ctx, batch)
     stream_docs(ctx, batch)
     if "unlawful_pairs" in ctx.extra:
@@ -1413,6 +1562,15 @@ def replay(path):
             print("   property demands:", exp)
             print("   implementation:  ", obs)
         return 1 if any(kf is None for _, _, _, kf in found) else 0
+    if op == "window":
+        out = call_entry(build_doc(c["recipe"]), c["entry"], c["encoding"])
+        print(f"call: {c['entry']}({c['encoding']!r}) on a document whose head holds a {len(c['recipe']['meta']['spacer'])}-byte <meta name=description> "
+              f"before the declaration; output {len(out)} bytes, declaration ends at byte {declaration_end(out, c['encoding'])}, "
+              f"documented window {documented_window(out)}")
+        found = check_window(ctx, c["recipe"], c["encoding"], c["entry"], c.get("target_offset"), c, "replay")
+        for v2 in ctx.violations:
+            print("VIOLATION:", v2["what"]); print("   property demands:", v2.get("expected")); print("   implementation:  ", v2.get("observed"))
+        return 1 if found else 0
     if op == "doc-str":
         soup = build_doc(c["recipe"])
         print("document:", ascii(soup.decode(eventual_encoding=None)))
